@@ -374,7 +374,8 @@ class Monitors:
             # invalid-row accounting (observable through the log only)
             nums = [int(x) for msg in self.log.messages if 'invalid' in msg.lower() for x in re.findall(r'Detected (\d+) invalid', msg)]
             if exp['skipped'] > 0:
-                mentioned = any(str(exp['skipped']) in re.findall(r'\d+', msg) for msg in self.log.messages if 'invalid' in msg.lower())
+                # any wording is accepted: some logged message has to carry the count
+                mentioned = any(str(exp['skipped']) in re.findall(r'\d+', msg) for msg in self.log.messages if ' set to: ' not in msg)
                 if nums and nums[0] != exp['skipped']:
                     self.violate('C08', 'invalid-count', {'reported': nums[0], 'expected': exp['skipped']})
                 elif not nums and not mentioned:
